@@ -468,6 +468,7 @@ func runC06extra(c *Ctx) {
 	}
 
 	clauseLRUPin(c, "C06.l")
+	clauseCacheReleaseDiscipline(c, "C06.p")
 	clauseStreamPosition(c, "C06.m")
 	clauseKeyInjective(c, "C06.n", [][2]string{{"fs/remote", "(*httpFetcher).genID"}})
 	clauseRangeLabelAndCompleteHit(c, "C06.o")
